@@ -17,7 +17,8 @@ From PTK Require Import Lib.Sx Lib.Py Model.Document Model.BufferEdit Model.C02_
   Model.C08_ViOps Model.C08_TextObjects Model.C08_Session
   Gen.C08_Tables Proofs.BufferEditFacts Proofs.C08_ViFacts Proofs.C08_Lines Proofs.C08_WholeLines Proofs.C08_Failed
   Proofs.C02_Base Proofs.C02_Coords Proofs.C02_WordsExact Proofs.C02_FindExact
-  Proofs.C08_SessionFacts Proofs.C08_LinewiseRange Proofs.C08_Spans
+  Proofs.C02_Words Proofs.C02_Boundaries
+  Proofs.C08_SessionFacts Proofs.C08_LinewiseRange Proofs.C08_Spans Proofs.C08_Commands
   Proofs.C08_Tables.
 Import ListNotations.
 Open Scope Z_scope.
@@ -398,7 +399,7 @@ Proof. exact run_digits. Qed.
 Print Assumptions C08_typed_digits.
 
 (* ------------------------------------------------------------------ *)
-(* PROPOSAL (fixes/C08-failed-motion-cancels-operator.patch; the patched
+(* PROPOSAL (fixes/C08-failed-motion-minimal.patch; the patched
    variant key_step_gen true, tied to a patched tree by harness/c08_patched.py):
    a failed text object - or an exclusive object with equal ends - cancels
    EVERY operator (d c y, register variants, case operators, > < gq): text,
@@ -536,6 +537,103 @@ Theorem C08_span_F : forall d n hc ch l,
   end.
 Proof. exact span_F. Qed.
 Print Assumptions C08_span_F.
+
+Theorem C08_span_T : forall d n hc ch l,
+  greedy (occ ceq_exact (rev [ch]) (rev (current_line_before_cursor d))) (fstep [ch]) 0 l ->
+  text_object (T_T ch) d n hc =
+  match nth_match l n with
+  | Some p => if - p - 1 =? 0 then TO (mk1 0) true else excl0 (- p - 1 + 1)
+  | None => TO (mk1 0) true
+  end.
+Proof. exact span_T. Qed.
+Print Assumptions C08_span_T.
+
+(* ; and , repeat the stored search: forwards they are f on the stored
+   character, backwards the exclusive F; without a stored search they fail *)
+Theorem C08_span_repeat : forall d n hc reverse ch backwards,
+  (xorb backwards reverse = false ->
+   text_object (T_repeat reverse true ch backwards) d n hc = text_object (T_f ch) d n hc) /\
+  (xorb backwards reverse = true ->
+   text_object (T_repeat reverse true ch backwards) d n hc =
+   if_match (dfind_backwards ceq_exact d [ch] true n) (fun v => v) EXCL) /\
+  text_object (T_repeat reverse false ch backwards) d n hc = TO (mk1 0) true.
+Proof.
+  intros. split; [apply span_repeat_forward|]. split; [apply span_repeat_backward|apply span_repeat_none].
+Qed.
+Print Assumptions C08_span_repeat.
+
+(* ------------------------------------------------------------------ *)
+(* Per-command statements (d as the representative operator): the span
+   theorems composed with C08_delete_span.  [removes st r a e]: r is "no
+   exception, text without [a, e), cursor a, clipboard exactly text[a:e]
+   CHARACTERS, registers untouched"; [at_doc st d]: the buffer of st is d. *)
+
+Theorem C08_cmd_d_dollar : forall st d n hc ev,
+  at_doc st d -> valid d -> 0 < len (current_line_after_cursor d) ->
+  exists o, text_object T_dollar d n hc = TO o false /\
+    removes st (op_delete true false st o ev) (dcur d) (dcur d + len (current_line_after_cursor d)).
+Proof. exact cmd_d_dollar. Qed.
+Print Assumptions C08_cmd_d_dollar.
+
+Theorem C08_cmd_d_zero : forall st d n hc ev,
+  at_doc st d -> valid d -> 0 < len (current_line_before_cursor d) ->
+  exists o, text_object T_zero d n hc = TO o false /\
+    removes st (op_delete true false st o ev) (dcur d - len (current_line_before_cursor d)) (dcur d).
+Proof. exact cmd_d_zero. Qed.
+Print Assumptions C08_cmd_d_zero.
+
+(* dw: up to the count-th next word start j; when j is the first column of a
+   line the line ending before it stays *)
+Theorem C08_cmd_d_w : forall st d n hc W l j ev,
+  at_doc st d -> valid d -> 1 <= n ->
+  enumerates (fun j => dcur d < j /\ word_start (word_cls W) (dtext d) j) l ->
+  pick l n = Some j -> j <= len (dtext d) ->
+  text_object (T_w W) d n hc = TO (mk1 (j - dcur d)) false /\
+  (snd (translate_index_to_position d j) <> 0 ->
+     removes st (op_delete true false st (mk1 (j - dcur d)) ev) (dcur d) j) /\
+  (snd (translate_index_to_position d j) = 0 -> dcur d + 1 < j ->
+     removes st (op_delete true false st (mk1 (j - dcur d)) ev) (dcur d) (j - 1)).
+Proof. exact cmd_d_w. Qed.
+Print Assumptions C08_cmd_d_w.
+
+Theorem C08_cmd_d_b : forall st d n hc W l j ev,
+  at_doc st d -> valid d -> 1 <= n ->
+  enumerates (fun j => j < dcur d /\ word_start (word_cls W) (dtext d) j) l ->
+  pick (rev l) n = Some j -> 0 <= j ->
+  0 < len (current_line_before_cursor d) ->
+  text_object (T_b W) d n hc = TO (mk1 (j - dcur d)) false /\
+  removes st (op_delete true false st (mk1 (j - dcur d)) ev) j (dcur d).
+Proof. exact cmd_d_b. Qed.
+Print Assumptions C08_cmd_d_b.
+
+Theorem C08_cmd_d_e : forall st d n hc W l j ev,
+  at_doc st d -> valid d -> 1 <= n ->
+  enumerates (fun j => dcur d + 1 < j /\ word_end (word_cls W) (dtext d) j) l ->
+  pick l n = Some j -> j <= len (dtext d) ->
+  text_object (T_e W) d n hc = TO (mkto (j - 1 - dcur d) 0 INCL) false /\
+  removes st (op_delete true false st (mkto (j - 1 - dcur d) 0 INCL) ev) (dcur d) j.
+Proof. exact cmd_d_e. Qed.
+Print Assumptions C08_cmd_d_e.
+
+Theorem C08_cmd_d_f : forall st d n hc ch l p ev,
+  at_doc st d -> valid d ->
+  greedy (occ ceq_exact [ch] (find_scanned d true false)) (fstep [ch]) 0 l ->
+  0 < len (current_line_after_cursor d) -> nth_match l n = Some p -> 0 <= p ->
+  dcur d + p + 2 <= len (dtext d) ->
+  text_object (T_f ch) d n hc = TO (mkto (p + 1) 0 INCL) false /\
+  removes st (op_delete true false st (mkto (p + 1) 0 INCL) ev) (dcur d) (dcur d + p + 2).
+Proof. exact cmd_d_f. Qed.
+Print Assumptions C08_cmd_d_f.
+
+(* diw on a word: exactly the maximal run of the cursor character's class *)
+Theorem C08_cmd_d_iw : forall st d n hc W s e ev,
+  at_doc st d -> valid d ->
+  find_boundaries_of_current_word d W false false = (s, e) -> 0 < e ->
+  text_object (T_word W false) d n hc = TO (mkto s e EXCL) false /\
+  is_run (word_cls W) (dtext d) (dcur d + s) (dcur d + e) /\
+  removes st (op_delete true false st (mkto s e EXCL) ev) (dcur d + s) (dcur d + e).
+Proof. exact cmd_d_iw. Qed.
+Print Assumptions C08_cmd_d_iw.
 
 (* ------------------------------------------------------------------ *)
 (* Tables regenerated from the repo on every run (gen/gen_t_c08.py). *)
